@@ -9,6 +9,8 @@ import (
 	"errors"
 	"fmt"
 	"net"
+	"strconv"
+	"strings"
 
 	_ "github.com/mattn/go-sqlite3"
 )
@@ -42,7 +44,7 @@ func loadRecords(db *sql.DB) (map[string]*Record, error) {
 		if err := rows.Scan(&mac, &ip, &expiry, &hostname); err != nil {
 			return nil, fmt.Errorf("failed to scan row: %w", err)
 		}
-		hwaddr, err := net.ParseMAC(mac)
+		hwaddr, err := parseHWAddr(mac)
 		if err != nil {
 			return nil, fmt.Errorf("malformed hardware address: %s", mac)
 		}
@@ -56,6 +58,33 @@ func loadRecords(db *sql.DB) (map[string]*Record, error) {
 		return nil, fmt.Errorf("failed lease database row scanning: %w", err)
 	}
 	return records, nil
+}
+
+// parseHWAddr parses a hardware address in the colon-separated hex form that
+// net.HardwareAddr.String() produces and saveIPAddress stores. Unlike
+// net.ParseMAC it accepts any length: DHCPv4 clients may use hardware
+// addresses of 0 to 16 bytes, and their leases have to survive a restart too.
+// A single hex digit is accepted for a byte because the column's NUMERIC
+// affinity turns a one-byte address such as "05" into 5.
+func parseHWAddr(s string) (net.HardwareAddr, error) {
+	if hwaddr, err := net.ParseMAC(s); err == nil {
+		return hwaddr, nil
+	}
+	hwaddr := net.HardwareAddr{}
+	if s == "" {
+		return hwaddr, nil
+	}
+	for _, part := range strings.Split(s, ":") {
+		if len(part) < 1 || len(part) > 2 {
+			return nil, fmt.Errorf("malformed hardware address: %s", s)
+		}
+		b, err := strconv.ParseUint(part, 16, 8)
+		if err != nil {
+			return nil, fmt.Errorf("malformed hardware address: %s", s)
+		}
+		hwaddr = append(hwaddr, byte(b))
+	}
+	return hwaddr, nil
 }
 
 // saveIPAddress writes out a lease to storage
